@@ -401,3 +401,23 @@ def grep_forbidden() -> List[str]:
                 line = src2.count("\n", 0, m.start()) + 1
                 hits.append(f"{os.path.relpath(p, LEAN)}:{line}: {m.group(0).strip()}")
     return hits
+
+
+CALL_FORMS = ("positional", "keyword", "keyword-reversed", "partial-last", "mixed")
+
+
+def call_in_form(fn, names, values, form="positional"):
+    """call fn with the documented parameter names (as they are at the pinned commit) in another equally legitimate form: all by
+    keyword, by keyword in the opposite order, the last argument bound first through functools.partial, first positional + rest by
+    keyword.  What a function returns must not depend on how its arguments were spelled."""
+    import functools
+    if form == "positional" or not names:
+        return fn(*values)
+    kw = dict(zip(names, values))
+    if form == "keyword":
+        return fn(**kw)
+    if form == "keyword-reversed":
+        return fn(**dict(reversed(list(kw.items()))))
+    if form == "partial-last":
+        return functools.partial(fn, **{names[-1]: values[-1]})(**dict(list(kw.items())[:-1]))
+    return fn(values[0], **dict(list(kw.items())[1:]))
